@@ -4,3 +4,24 @@ import worldprop
 
 P = worldprop.WorldProp("C19", "p_c19", [('register', 250, 5000), ('general', 100, 1000)], {12,13,17,151,158})
 run, replay = P.run, P.replay
+
+
+class C19F(worldprop.WorldProp):
+    """the register flows of the fault-enumeration suite, judged by the same registration predicate"""
+
+    def gen_fn(self, binp, prof, thorough):
+        import os
+        import vlib
+        if prof != "faults-register":
+            return worldprop.generate(binp, prof, 5000 if thorough and prof == "register" else (1000 if thorough else (250 if prof == "register" else 100)),
+                                      60 if thorough else 30, vlib.seed(), "C19_" + prof)
+        path = os.path.join(vlib.CACHE, "faults_c19.jsonl")
+        rc, log = vlib.run_harness(["faults", "-seed", str(vlib.seed()), "-only", "register", "-out", path], binp=binp, timeout=3000)
+        hs = vlib.read_jsonl(path) if rc == 0 and os.path.exists(path) else []
+        if os.path.exists(path):
+            os.remove(path)
+        return hs, ([] if rc == 0 else [log[-1500:]])
+
+
+P = C19F("C19", "p_c19", [("register", 250, 5000), ("general", 100, 1000), ("faults-register", 0, 0)], {12, 13, 17, 151, 158})
+run, replay = P.run, P.replay
